@@ -8,11 +8,11 @@ cp -r /repo $S/repo; rm -rf $S/repo/.git
 # demonstrations locate the tree relative to their own path (<tree>/MUTATION/<X>/demo.py): keep that layout
 mkdir -p $S/repo/MUTATION/X; cp $demo $S/repo/MUTATION/X/demo.py; demo=$S/repo/MUTATION/X/demo.py
 sed -i "s|'/tmp/mut/[A-Za-z0-9]*-[a-z]/'|'$S/repo/'|g; s|\"/tmp/mut/[A-Za-z0-9]*-[a-z]/\"|\"$S/repo/\"|g" $demo
-export BCL_DATA_DIR=$S/data
+export BCL_DATA_DIR=$S/data; mkdir -p $S/data
 echo "--- demo on unchanged tree"
 ( cd $S/repo && PYTHONPATH=$S/repo timeout 600 /venv/bin/python $demo > $S/demo_clean.log 2>&1; echo "exit $?"; tail -2 $S/demo_clean.log )
 ( cd $S/repo && patch -p1 -s < $patch ) || { echo "PATCH FAILED"; exit 9; }
-rm -rf $S/data
+rm -rf $S/data; mkdir -p $S/data
 echo "--- demo with the change"
 ( cd $S/repo && PYTHONPATH=$S/repo timeout 600 /venv/bin/python $demo > $S/demo_mut.log 2>&1; echo "exit $?"; tail -3 $S/demo_mut.log )
 unset BCL_DATA_DIR
